@@ -48,6 +48,7 @@ Inductive action :=
 | ADropPeer (i : N)             (* the peer drops its end of the i-th pending operation *)
 | AProgress (i : N)             (* a STARTING import call becomes STARTED *)
 | AWake (j : N)                 (* event j is signalled from outside every task *)
+| AWakeC (j : N)                (* the same, from inside a C-ABI waitable callback (an extern "C" frame) *)
 | ARaw (t e0 e1 e2 : N)         (* malformed stream only: an arbitrary event *)
 | ACleanup.                     (* the harness drops every waker it still stores *)
 
@@ -101,7 +102,7 @@ Inductive tev :=
 | VStart (t code : N) | VCb (t e0 e1 e2 code : N) | VBon (t : N)
 | VSpawn (b : N) | VFin (b : N) | VEnd (b : N) (finished : bool) | VReturn (b : N)
 | VOpDone (k : N) | VCall (k p : N) | VLift (k : N)
-| VFwait (j b : N) | VWflag (j : N) | VXwake (j : N) | VYieldStep (b : N)
+| VFwait (j b : N) | VWflag (j : N) | VXwake (j : N) | VYieldStep (b : N) | VOpStart (k : N) | VKwake (j : N)
 | VCtxGet (t : N) (null : bool) | VCtxSet (t : N) (null : bool) | VCtxObs (t : N) (null : bool).
 
 Record world := mkW {
@@ -154,6 +155,8 @@ Definition T_WFLAG := 113.
 Definition T_XWAKE := 114.
 Definition T_PRESTART := 115.
 Definition T_YSTEP := 116.
+Definition T_OPSTART := 117.
+Definition T_KWAKE := 118.
 
 (** ** Updates *)
 Definition set_host x w := mkW x (w_tasks w) (w_ops w) (w_flags w) (w_waiters w) (w_spawned w) (w_cur w) (w_script w) (w_deadlocks w) (w_err w) (w_created w) (w_trace w).
@@ -195,6 +198,8 @@ Definition ev_call (x : tev) : hostcall :=
   | VWflag j => HNote T_WFLAG [j]
   | VXwake j => HNote T_XWAKE [j]
   | VYieldStep b => HNote T_YSTEP [b]
+  | VOpStart k => HNote T_OPSTART [k]
+  | VKwake j => HNote T_KWAKE [j]
   | VCtxGet t n | VCtxObs t n => HCtxGet t n
   | VCtxSet t n => HCtxSet t n
   end.
@@ -430,7 +435,7 @@ Definition op_with_code (e : env) (t k : N) (st : opst) (oc : option N) (wr : wr
 (** [poll_complete] *)
 Definition op_poll (e : env) (t k : N) (wr : wref) (w : world) : world * bool :=
   match get_op k w with
-  | OIdle => let '(w, code, st) := op_start e k w in op_with_code e t k st (Some code) wr w
+  | OIdle => let '(w, code, st) := op_start e k (emit (VOpStart k) w) in op_with_code e t k st (Some code) wr w
   | OProg st => op_with_code e t k (opst_with st None (o_wk st)) (o_code st) wr w
   | ODone _ => (fail E_OP w, true)
   end.
@@ -865,6 +870,7 @@ Definition host_action (e : env) (a : action) (w : world) : world :=
         | _, _ => w
         end) w
   | AWake j => signal_flag e j (emit (VXwake j) w)
+  | AWakeC j => signal_flag e j (emit (VKwake j) w)
   | _ => w
   end.
 
